@@ -57,6 +57,25 @@ Theorem C08_blocked_call_is_invisible :
 Proof. exact blocked_call_is_invisible. Qed.
 Print Assumptions C08_blocked_call_is_invisible.
 
+(* any sequence of rejected calls, however long, leaves context, Lua state, world AND the thread's
+   Go call depth exactly as they were *)
+Theorem C08_rejected_calls_change_nothing :
+  forall (ctx : Type) (flags : ctx -> N) (term : Type) (requireCPU : Z -> Z -> ctx -> r1 ctx term)
+         (Lua World : Type) now (fs : list (gofunction ctx term Lua World)) depth c l w,
+  Forall (fun f => missing (flags c) (declared _ _ _ _ f) <> 0%N) fs ->
+  run_many ctx flags term requireCPU Lua World now depth fs c l w = (c, l, w, depth).
+Proof. exact rejected_calls_change_nothing. Qed.
+Print Assumptions C08_rejected_calls_change_nothing.
+
+Theorem C08_call_depth_balanced :
+  forall (ctx : Type) (flags : ctx -> N) (term : Type) (requireCPU : Z -> Z -> ctx -> r1 ctx term)
+         (Lua World : Type) now depth (f : gofunction ctx term Lua World) c l w,
+  snd (run_in_thread_depth ctx flags term requireCPU Lua World now depth f c l w) = depth /\
+  fst (run_in_thread_depth ctx flags term requireCPU Lua World now depth f c l w) =
+    run_in_thread ctx flags term requireCPU Lua World now depth f c l w.
+Proof. exact call_depth_balanced. Qed.
+Print Assumptions C08_call_depth_balanced.
+
 (* safeio refuses under iosafe and leaves the world untouched *)
 Theorem C08_safeio_refuses :
   forall (ctx : Type) (flags : ctx -> N) (World A : Type) (c : ctx) (prim : World -> A * World) (w : World),
